@@ -78,3 +78,71 @@ Print Assumptions C09_whole_subpath_off_partial.
 (* the cuts of one segment: k cuts at the points q(j+1) = q(j) + lv * r(j), r(0) what is left of the current entry and
    r(j) the following entries of the array, all on the segment's ray; on/off alternates with every cut *)
 (* further lemmas of the same file: dash_points_on_segments, chop_emit_by_index *)
+(* ---- the arc-length statement itself, on the sub-domain where binary32 is exact (DashZ/DashPos/DashSpec/DashClosed/DashExact.v) ----
+   Domain: integer vertices with |coordinate| <= 2048, every segment horizontal, vertical or empty, integer dash entries
+   >= 1 with period (sum, twice for an odd array) <= 2^24, integer offset |off| <= 2^24 (and off mod period <= 131071, the
+   fuel of the offset loop).  On it every f32 operation of the dasher is exact and the statement can be proved outright. *)
+Require Import RQ.Contains RQ.DashZ RQ.DashPos RQ.DashSpec RQ.DashClosed RQ.DashExact.
+
+(* the binary32 dasher is, op for op, an integer dasher *)
+Theorem C09_dasher_is_exact_on_integer_axis_aligned_paths : forall zarr, zarr <> [] -> Forall (fun a => 1 <= a) zarr -> ztotal zarr <= i24 ->
+  forall ops w off, Z.abs off <= i24 -> off mod ztotal zarr <= 131071 -> zops_ok None None ops ->
+  dash_path (map of_int zarr) (mk_path (map eop ops) w) (of_int off) =
+  Ok (mk_path (map eop (zdash_path zarr ops off)) NonZero).
+Proof. exact dash_path_int. Qed.
+Print Assumptions C09_dasher_is_exact_on_integer_axis_aligned_paths.
+
+(* pattern_on zarr o s: the unit interval (s, s+1) of arc length lies in a dash of the cyclic pattern (odd arrays repeated
+   twice) shifted by o; on_intervals are exactly its maximal runs inside [0, L] *)
+Theorem C09_on_intervals_are_the_runs_of_the_pattern : forall zarr, (forall i, 1 <= zarr_at zarr i) -> forall o, 0 <= o -> forall L,
+  (forall a b, In (a, b) (on_intervals zarr o L) ->
+     0 <= a /\ a < b /\ b <= L /\ (forall t, a <= t < b -> pattern_on zarr o t = true) /\
+     (a = 0 \/ pattern_on zarr o (a - 1) = false) /\ (b = L \/ pattern_on zarr o b = false)) /\
+  (forall t, 0 <= t < L -> pattern_on zarr o t = true -> exists a b, In (a, b) (on_intervals zarr o L) /\ a <= t < b).
+Proof. intros zarr H o Ho L. split; [intros a b; apply on_intervals_sound; assumption | intros t; apply on_intervals_complete; assumption]. Qed.
+Print Assumptions C09_on_intervals_are_the_runs_of_the_pattern.
+
+(* THE STATEMENT for an open polyline: the pieces the dasher emits (split at MoveTo, consecutive duplicate points merged)
+   are exactly, for every 'on' interval [a,b] of the pattern along the arc length, the point at arc length a, the
+   vertices strictly between, the point at arc length b (pieces_spec: defined from pattern_on, point_at and the vertex list
+   only) - in order, except that a first piece that starts inside a dash is emitted last (the dasher buffers it) *)
+Theorem C09_open_polyline_pieces_are_the_on_intervals : forall zarr, zarr <> [] -> Forall (fun a => 1 <= a) zarr -> ztotal zarr <= i24 ->
+  forall p0 pts w off, Z.abs off <= i24 -> off mod ztotal zarr <= 131071 -> pt_ok p0 -> Forall pt_ok pts -> poly_axis p0 pts ->
+  let o := off mod ztotal zarr in
+  exists zout,
+    dash_path (map of_int zarr) (mk_path (MoveTo (ept p0) :: map LineTo (map ept pts)) w) (of_int off) =
+      Ok (mk_path (map eop zout) NonZero) /\
+    znorm (zpieces zout) = (if starts_in_dash zarr o then rot1 (pieces_spec zarr o p0 pts) else pieces_spec zarr o p0 pts).
+Proof. exact dash_open_polyline_spec. Qed.
+Print Assumptions C09_open_polyline_pieces_are_the_on_intervals.
+
+(* "restarted at the start of every subpath": several open subpaths give the pieces of each, the pattern starting afresh *)
+Theorem C09_pattern_restarts_at_every_subpath : forall zarr, zarr <> [] -> Forall (fun a => 1 <= a) zarr -> ztotal zarr <= i24 ->
+  forall subs w off, Z.abs off <= i24 -> off mod ztotal zarr <= 131071 -> Forall sub_ok subs ->
+  let o := off mod ztotal zarr in
+  exists zout,
+    dash_path (map of_int zarr) (mk_path (concat (map sub_fops subs)) w) (of_int off) = Ok (mk_path (map eop zout) NonZero) /\
+    znorm (zpieces zout) =
+      concat (map (fun s => if starts_in_dash zarr o then rot1 (pieces_spec zarr o (fst s) (snd s))
+                            else pieces_spec zarr o (fst s) (snd s)) subs).
+Proof. exact dash_open_polylines_spec. Qed.
+Print Assumptions C09_pattern_restarts_at_every_subpath.
+
+(* closed subpath: the pieces are those of the polyline closed by an explicit last segment, and either nothing more
+   happens, or the piece reaching the end is joined to the piece starting at the beginning, or (pattern 'on' all the way
+   round) the output is the closed outline; _partial: which case applies is not expressed through pattern_on *)
+Theorem C09_closed_subpath_joins_end_to_start_partial : forall zarr, zarr <> [] -> Forall (fun a => 1 <= a) zarr -> ztotal zarr <= i24 ->
+  forall p0 pts w off, Z.abs off <= i24 -> off mod ztotal zarr <= 131071 -> pt_ok p0 -> Forall pt_ok pts -> poly_axis p0 (pts ++ [p0]) ->
+  let o := off mod ztotal zarr in
+  exists zc zo,
+    dash_path (map of_int zarr) (mk_path (MoveTo (ept p0) :: map LineTo (map ept pts) ++ [Close]) w) (of_int off) =
+      Ok (mk_path (map eop zc) NonZero) /\
+    dash_path (map of_int zarr) (mk_path (MoveTo (ept p0) :: map LineTo (map ept (pts ++ [p0]))) w) (of_int off) =
+      Ok (mk_path (map eop zo) NonZero) /\
+    znorm (zpieces zo) =
+      (if starts_in_dash zarr o then rot1 (pieces_spec zarr o p0 (pts ++ [p0])) else pieces_spec zarr o p0 (pts ++ [p0])) /\
+    (znorm (zpieces zc) = znorm (zpieces zo) \/
+     (exists xs pa pb, zpieces zo = xs ++ [pa ++ [p0]; p0 :: pb] /\ zpieces zc = xs ++ [pa ++ p0 :: pb]) \/
+     (exists buf, zc = ZMove p0 :: map ZLine buf ++ [ZClose] /\ zpieces zo = [[p0]; buf ++ [last pts p0; p0]])).
+Proof. exact dash_closed_subpath_exact. Qed.
+Print Assumptions C09_closed_subpath_joins_end_to_start_partial.
